@@ -135,11 +135,14 @@ CLAIMS = {
             "the window, an upper bound at or below alpha, a lower bound at or above beta; full window exact; ordering is a permutation. The fuel is no hypothesis: every capture removes "
             "a man, so on a position satisfying the invariant qsearch terminates with any fuel above 32 and its result does not depend on the fuel (C19_qsearch_sound_total).",
             "DESIGN.md section 6 C19 and section 9", "eval/legal_captures/makemove of the model are tied to the code by C17/C08/C02 runs"),
-    "C20": ("proof", "Coq proof over exact rationals that features and scores lie in [0,1] under the consistency invariant + the real style.py run on generated games",
-            "PARTIAL proof. Proved: under SInv (the tool's is_valid conditions plus histogram sums, threats <= moves, the early-pawn-push bound) no "
-            "feature divides by zero and the three scores lie in [0,1]. Measured, not proved: that analyse_game establishes SInv (premises evaluated "
-            "exactly on the statistics of every generated game set); floats are modelled as rationals (agreement to 1e-9); python-chess is replaced "
-            "by tools/chess_stub.", "DESIGN.md section 6 C20", "tools/chess_stub is trusted"),
+    "C20": ("proof", "Coq proof: the tool's game analysis modelled over the engine model's positions keeps the consistency invariant for every set of games (counting, pawn potential), hence features and scores in [0,1] over exact rationals + the real style.py run on generated games and compared counter by counter with the model",
+            "Proof on the model, floats excepted. Proved: for every non-empty list of games, each any sequence of generated (legal, C01) moves from the "
+            "start position, any result headers, either side, the statistics accumulated by the model of analyse_game / Stats.add_* / finish_game "
+            "(model/StyleGame.v) satisfy is_valid and SInv (histogram sums, threats <= moves, the early-pawn-push potential bound), is_valid holds after "
+            "every game, no feature divides by zero and the three scores lie in [0,1]; without games every score is None. Tied to the tool by comparing "
+            "all 32 modelled counters exactly on every generated game set. Not modelled: float rounding (rationals vs floats agree to 1e-9), the PGN "
+            "reader, python-chess (replaced by tools/chess_stub), the counters no score reads.",
+            "DESIGN.md section 6 C20 and section 9 (seventh proof round)", "tools/chess_stub is trusted"),
 }
 
 NOT_YET = {}
